@@ -1,6 +1,7 @@
 from checklib.registry import generic, COMMON_NOTE
+from checklib import steps
 
-CHECK = generic("C04", [dict(harness="lists", area="lists")])
+CHECK = generic("C04", [dict(harness="lists", area="lists")], pregen=steps.pregen_slice)
 
 MANIFEST = dict(
     text=("Theorems in Lean 4 (Ekit/Props/C04.lean): every call on the ArrayList / LinkedList / CopyOnWriteArrayList models "
